@@ -124,7 +124,7 @@ class C13(PropBase):
         dl = [rng.choice([0, 0, 1, 2, 3, 5, 8]) for _ in range(rng.range(1, 6))]
         return "dl=%s runs=%d seed=%d" % (",".join(map(str, dl)), runs or rng.choice([6, 8]), rng.range(1, 1 << 30))
 
-    def shared_modules_case(self, rng, same_leaf=False, alias=False):
+    def shared_modules_case(self, rng, same_leaf=False, alias=False, early_exit=False):
         """several threads whose stacks return into two or three shared modules"""
         cpu = "arm64" if alias else rng.choice(["amd64", "amd64", "x86", "arm64", "arm"])
         bits, ips, sps, fps, lrs, pre = CPUS[cpu]
@@ -135,16 +135,31 @@ class C13(PropBase):
         sp = pre + sps[0]
         fp = "x29" if cpu == "arm64" else pre + (fps[0] if fps else "fp")
         for i, (b, s) in enumerate(mods):
-            has_sym = rng.chance(2, 3) if not same_leaf else (i != 1)
+            has_sym = (rng.chance(2, 3) or early_exit) if not same_leaf else (i != 1)
             if has_sym:
                 if alias:
                     rule = ".cfa: sp 16 + .ra: .cfa 8 - ^ x29: %d fp: %d x30: %d lr: %d x19: .cfa 16 - ^" % (rng.below(1000), rng.below(1000), rng.below(1000), rng.below(1000))
+                elif early_exit:
+                    # rules that leave the evaluator through one of its early exits AFTER an operand was pushed: a failed `^`
+                    # read with a value underneath, a register that is not valid in a caller frame, `.cfa` inside the CFA rule,
+                    # division by zero / bad alignment / unknown token / .undef with operands on the stack
+                    scratch = {"amd64": "$rax", "x86": "$eax", "arm64": "x0", "arm": "r0"}[cpu]
+                    base_rule = ".cfa: %s %d + .ra: .cfa %d - ^" % (sp, 2 * w, w)
+                    rule = rng.choice([base_rule + " %s: 5 0 ^ +" % fp,
+                                       base_rule + " %s: .cfa %s 8 * - ^" % (fp, scratch),
+                                       base_rule + " %s: 7 .cfa %s + ^" % (fp, scratch),
+                                       base_rule + " %s: 3 4 0 / +" % fp,
+                                       base_rule + " %s: 9 .cfa 3 @ +" % fp,
+                                       base_rule + " %s: 1 2 nonsense +" % fp,
+                                       base_rule + " %s: 6 .undef" % fp,
+                                       ".cfa: %s .cfa + .ra: %s ^" % (sp, sp),
+                                       base_rule + " %s: 8 18446744073709551615 ^ -" % fp])
                 else:
                     rule = rng.choice([".cfa: %s %d + .ra: .cfa %d - ^" % (sp, 2 * w, w),
                                        ".cfa: %s %d + .ra: .cfa %d - ^ %s: .cfa %d - ^" % (sp, 2 * w, w, fp, 2 * w),
                                        ".cfa: %s %d + .ra: .cfa %d - ^ %s: 5 %s: 6" % (sp, w, w, fp, fp)])
                 text = "MODULE Linux %s 000000000000000000000000000000000 m%d\nFILE 0 a.c\nFUNC 0 %x 0 fn%d\n0 10 7 0\nPUBLIC 20 0 pub\nSTACK CFI INIT 0 %x %s\n" % (cpu, i, s, i, s, rule)
-                if rng.chance(1, 6):
+                if rng.chance(1, 6) and not early_exit:
                     text = "MODULE garbage\nFUNC zz\n"
                 toks.append("S=" + hx(text.encode()))
                 toks.append("M=%d:%d:%s:%d" % (b, s, hx(names[i].encode()), sum(1 for t in toks if t.startswith("S=")) - 1))
@@ -271,6 +286,50 @@ class C13(PropBase):
             toks.append("limits=" + hx(("\n".join(lines) + "\n").encode()))
         return " ".join(toks)
 
+    def public_alias_case(self, rng):
+        """PUBLIC records that share an address (aliases, folded code, `m` multiples, exact duplicates) and frames that are
+        resolved through them (no FUNC covers the addresses): the name reported must not depend on the parse's hash seeds"""
+        cpu = rng.choice(["amd64", "x86", "arm64"])
+        bits, ips, sps, fps, lrs, pre = CPUS[cpu]
+        w = bits // 8
+        base, size = 0x400000, 0x10000
+        lines = ["MODULE Linux %s 000000000000000000000000000000000 pub.so" % cpu]
+        if rng.chance(1, 3):
+            lines.append("FUNC 8000 100 0 far_away")
+        addrs = []
+        for _ in range(rng.range(1, 3)):
+            a = 0x100 * rng.range(1, 0x40)
+            addrs.append(a)
+            names = []
+            while len(names) < rng.range(2, 4):
+                n = rng.choice(["alias_a", "alias_b", "Zeta", "alpha", "_ZN3foo3barEv", "folded_1", "folded_2", "a", "b"])
+                if n not in names:
+                    names.append(n)
+            for n in names:
+                lines.append("PUBLIC %s%x %x %s" % (rng.choice(["", "", "m "]), a, rng.choice([0, 0, 4, 8]), n))
+            if rng.chance(1, 3):
+                lines.append(lines[-1])            # an exact duplicate
+        lines.append("PUBLIC %x 0 after" % (max(addrs) + 0x2000))
+        rng_lines = lines[1:]
+        for i in range(len(rng_lines) - 1, 0, -1):
+            j = rng.below(i + 1)
+            rng_lines[i], rng_lines[j] = rng_lines[j], rng_lines[i]
+        text = "\n".join([lines[0]] + rng_lines) + "\n"
+        toks = ["cpu=" + cpu, "os=" + rng.choice(["linux", "win", "mac"]), "opt=%d" % rng.below(3), "S=" + hx(text.encode()),
+                "M=%d:%d:%s:0" % (base, size, hx(b"/lib/pub.so"))]
+        for t in range(rng.range(1, 3)):
+            sb = 0x20000 + t * 0x10000
+            words = []
+            for k in range(8):
+                words.append(base + rng.choice(addrs) + rng.below(0x80) if k % 2 else sb + w * (k + 2))
+            stack = b"".join((x & ((1 << bits) - 1)).to_bytes(w, "little") for x in words)
+            regs = ["%s=%d" % (n, base + rng.choice(addrs) + rng.below(0x80)) for n in ips]
+            regs += ["%s=%d" % (n, sb) for n in sps]
+            regs += ["%s=%d" % (n, sb + 2 * w) for n in fps]
+            regs += ["%s=%d" % (n, base + rng.choice(addrs) + 4) for n in lrs]
+            toks.append("T=%d:%d:%s:%s" % (t + 1, sb, hx(stack), ",".join(regs)))
+        return " ".join(toks)
+
     def many_threads_case(self, rng):
         """33..80 threads over 2..6 modules; sk= makes the supplier suspend a different number of times per module
         (rotated per run), so the walks complete in an order that is not the thread-list order"""
@@ -337,8 +396,12 @@ class C13(PropBase):
         for _ in range(n_fam):
             cases.append(self.linux_streams_case(rng, keys) + " " + self.sched_suffix(rng))
             cases.append(self.many_threads_case(rng))
+            cases.append(self.shared_modules_case(rng, early_exit=True) + " " + self.sched_suffix(rng))
+            cases.append(self.public_alias_case(rng) + " " + self.sched_suffix(rng))
         dist["linux_kv_conflicts"] = n_fam
         dist["many_threads_gt32"] = n_fam
+        dist["cfi_early_exit_after_push"] = n_fam
+        dist["public_aliases_same_address"] = n_fam
         dist["key_dictionary"] = keys
         alpha = "abMx  \t019+-ulimted"
         for _ in range(n_r):
